@@ -27,7 +27,7 @@ RULE = (
     "user-supplied custom dependency context on the broker in half of the cases; in half of the cases one node is "
     "replaced through broker.dependency_overrides by another generated dependency; in half of the cases the task also takes "
     "an annotated argument (a pydantic model accepting the scalar short form '1,2', the same wire value in every message), mutates it and reads it "
-    "back after its suspension. Oracle: every echo made while "
+    "back after its suspension; in a third of the cases the task itself does not take the Context (only its dependencies do) while other messages go to a second task that does. Oracle: every echo made while "
     "processing message i (attributed through a context variable set when its callback starts, inherited by every task it spawns) shows message i's id, argument "
     "and label; the result stored under id i is the value execution i returned. Non-trivial: >=2 executions overlap in "
     "virtual time and some Context-reading node is un-cached or below an un-cached node; distinct = canonical JSON."
@@ -56,6 +56,10 @@ def cases() -> Any:
         "overrides": st.one_of(st.just([]), st.lists(st.fixed_dictionaries({"target": st.integers(0, n - 1), "node": node(n)}), min_size=1, max_size=1)),
         "cached_base": st.booleans(),
         "box": st.booleans(),
+        # the task itself does not take the Context (only its dependencies may), and some messages go to a second,
+        # plain task that does: whatever that one left behind must not reach the first
+        "no_task_ctx": st.sampled_from([False, False, True]),
+        "to_plain": st.lists(st.booleans(), min_size=4, max_size=4),
     }).map(_sanitize))
 
 
@@ -117,18 +121,20 @@ def run_case(c: Dict[str, Any]) -> Outcome:
         b.result_backend = rb
         if c.get("custom_ctx"):
             b.add_dependency_context({Marker: Marker()})
-        mod, task, src = dg.build(nodes, tdeps, {"kind": "ret", "replacements": c.get("overrides") or [], "box": c.get("box")}, LOG)
+        mod, task, src = dg.build(nodes, tdeps, {"kind": "ret", "replacements": c.get("overrides") or [], "box": c.get("box"), "no_task_ctx": c.get("no_task_ctx")}, LOG)
         for ri, rep in enumerate(c.get("overrides") or []):
             b.dependency_overrides[getattr(mod, f"n{rep['target']}")] = getattr(mod, f"r{ri}")
         b.register_task(task, task_name="t")
+        b.register_task(mod.plain, task_name="plain")
         r = Receiver(b, executor=wh.Inline(), max_async_tasks=10, run_startup=False)
 
         async def one(k: int, start: float, slp: float) -> None:
             if start:
                 await asyncio.sleep(start)
             EXEC.set(k)
-            kw = {"box": "1,2"} if c.get("box") else {}     # the same wire value in every message
-            m = b.formatter.dumps(AsyncKicker("t", b, {"who": f"w{k}"}).with_task_id(f"id{k}")._prepare_message(k, slp, **kw)).message
+            plain = bool((c.get("to_plain") or [False] * 4)[k % 4]) and k > 0 and len(msgs) > 1 and c.get("no_task_ctx")
+            kw = {"box": "1,2"} if c.get("box") and not plain else {}     # the same wire value in every message
+            m = b.formatter.dumps(AsyncKicker("plain" if plain else "t", b, {"who": f"w{k}"}).with_task_id(f"id{k}")._prepare_message(k, slp, **kw)).message
             spans[k] = [loop.time(), None]
             await r.callback(m)
             spans[k][1] = loop.time()
@@ -185,7 +191,7 @@ def run_case(c: Dict[str, Any]) -> Outcome:
             if not uc and (nodes[j]["ctx"] or any(nodes[d]["ctx"] for d in dg.descendants(nodes, j))):
                 risky = True
     out.nontrivial = bool(overlap and risky)
-    out.classes = [c_ for c_, f in (("overlap", overlap), ("uncached_ctx_reader", risky), ("custom_ctx", c.get("custom_ctx")), ("dependency_overrides", bool(c.get("overrides"))),
+    out.classes = [c_ for c_, f in (("overlap", overlap), ("uncached_ctx_reader", risky), ("custom_ctx", c.get("custom_ctx")), ("dependency_overrides", bool(c.get("overrides"))), ("context_only_via_dependencies", bool(c.get("no_task_ctx"))),
                                     ("generator_style", any(nodes[i]["style"] in dg.YIELDING for i in reach))) if f]
     out.trace = {"echoes": {str(k): [list(e[:3]) for e in v[:6]] for k, v in echoes.items()}, "spans": {str(k): v for k, v in spans.items()}}
     return out
